@@ -21,7 +21,7 @@ TIERS = {
     "quick": {"targets": 320, "runs": 400, "ref_seeds": [0, 1, 20260924, 4242], "fresh_checks": 6, "redo": 8, "min_budget": 24,
               "chunk": 12, "budget_s": 420, "torchlib": False},
     "thorough": {"targets": 2600, "runs": 12000, "ref_seeds": [0, 1, 2, 3, 7, 1234567, 20260924, 4294967295], "fresh_checks": 40,
-                 "redo": 250, "min_budget": 60, "chunk": 25, "budget_s": 3300, "torchlib": True, "per_family": 10},
+                 "redo": 250, "min_budget": 60, "chunk": 25, "budget_s": 3300, "torchlib": True, "per_family": 10, "external_families": 23},
 }
 REF_PRE_SKEW = [0, 3, 5, 1, 2, 7, 11, 13]   # pre-import heap skew of the i-th reference environment
 PRE_SKEWS = [0, 0, 1, 2, 3, 5, 7, 11, 13, 101]
@@ -118,6 +118,20 @@ def gen_targets(seed: int, tier: dict, pools) -> list[dict]:
         n_mem = max(per_fam, genmodels.members_per_batch(gf, per_fam, cap=tier.get("variant_cap", 9)))
         gen_slots += [gf] * n_mem
         gen_member += list(range(n_mem))
+    # models "loaded with external data": for a seeded handful of families, one member's text twice more — once with its
+    # initializers in <base_dir>/weights.bin and once with that file missing (loaded without its weights); same relative
+    # location, different base_dir
+    ext_fams = list(gen_fams)
+    rng.sub("extfams").shuffle(ext_fams)
+    for gf in ext_fams[:tier.get("external_families", 6)]:
+        r = rng.sub("ext", gf)
+        fam_name, text = genmodels.gen_model(r.sub("gen"), gf, member=0, offset=rng.sub("variant-offset", gf).below(64))
+        for present in (True, False):
+            m = {"pool": "text", "text": text, "external": {"present": present}}
+            cfgs = [("rewrite", {"rules": FAMILY_AFFINITY.get(fam_name, "default_set"), "api": "apply"}),
+                    ("rewrite", {"rules": "default", "api": "pass"}), ("optimize", {"api": "fold_pass"})]
+            for kind, params in cfgs:
+                add(with_id({"kind": kind, "model": m, "family": fam_name, **copy.deepcopy(params)}))
     # the version converter's own test models are the ones on which adapters replace nodes
     vc_texts = [(f, t) for f, t in pools.texts if "version_converter" in f]
     rng.sub("vcorder").shuffle(vc_texts)
